@@ -49,7 +49,7 @@ FAMILIES = [
     (["shld", "shrd"], [(RM(16), "r16", "ib"), (RM(32), "r32", "ib"), (RM(32), "r32", "cl")]),
     (["movzx", "movsx"], [("r16", RM(8)), ("r32", RM(8)), ("r32", RM(16))]),
     (["lea"], [("r32", "mx"), ("r16", "mx")]),
-    (["push"], [("r32",), ("r16",), ("m32",), ("i32",), ("sreg",)]),
+    (["push"], [("r32",), ("r16",), ("m32",), ("m16",), ("i32",), ("i16",), ("sreg",)]),
     (["pop"], [("r32",), ("r16",), ("m32",), ("sreg_nocs",)]),
     (["set" + c for c in CCS], [(RM(8),)]),
     (["cmov" + c for c in CCS], [("r16", RM(16)), ("r32", RM(32))]),
@@ -241,6 +241,8 @@ def op_intel(o, style=0):
 
 def intel(sp, style=0):
     ops = ", ".join(op_intel(o, style) for o in sp["ops"])
+    if sp["mn"] == "push" and sp.get("w") == 16 and sp["ops"] and sp["ops"][0][0] == "imm":
+        ops = "WORD PTR " + ops        # an immediate carries no size of its own
     return (sp["mn"] + " " + ops).strip()
 
 
@@ -291,7 +293,7 @@ def att(sp):
         if not any(o[0] == "reg" and o[1] in SREG + CR + DR for o in ops):
             name = mn + ATT_SUFFIX[w]
     elif mn in ("push", "pop") and ops and (ops[0][0] != "reg" or ops[0][1] in R32 + R16):
-        ww = 16 if (ops[0][0] == "reg" and ops[0][1] in R16) else 32
+        ww = 16 if (ops[0][0] == "reg" and ops[0][1] in R16) or (ops[0][0] != "reg" and w == 16) else 32
         name = mn + ATT_SUFFIX[ww]
     elif mn in ("jmp", "call") and ops and ops[0][0] != "rel":
         return "%s *%s" % (mn, op_att(ops[0]))
@@ -346,12 +348,18 @@ def intel_variant(sp, opt):
             r = opt["st"]
         if opt.get("regcase") == "upper":
             r = r.upper()
+        elif opt.get("regcase") == "capital":
+            r = r[:1].upper() + r[1:]
+        elif opt.get("regcase") == "alternate":
+            r = "".join(c.upper() if i % 2 else c for i, c in enumerate(r))
         if opt.get("pct"):
             r = "%" + r
         return r
 
     def kw(size):
         k = SIZEKW[size] + " PTR"
+        if opt.get("kwcase") == "capital":
+            return " ".join(w.capitalize() for w in k.split())
         return k.lower() if opt.get("kwcase") == "lower" else k
 
     sp_ = " " * opt.get("space", 0)
@@ -404,6 +412,8 @@ def intel_variant(sp, opt):
             ops.append(reg(o[1]))
         elif o[0] in ("imm", "rel"):
             ops.append(number(o[1], cls == "i32"))
+            if sp["mn"] == "push" and sp.get("w") == 16 and o[0] == "imm":
+                ops[-1] = kw(16) + " " + ops[-1]
         else:
             ops.append(memop(o))
     sep = "," + (" " * (1 + opt.get("space", 0)) if opt.get("space", 0) != 9 else "\t")
@@ -413,6 +423,9 @@ def intel_variant(sp, opt):
 REWRITES = {
     "register-case": {"regcase": "upper"},
     "keyword-case": {"kwcase": "lower"},
+    "register-capitalised": {"regcase": "capital"},
+    "register-alternating-case": {"regcase": "alternate"},
+    "keyword-capitalised": {"kwcase": "capital"},
     "spacing": {"space": 2},
     "tab-after-comma": {"space": 9},
     "hexadecimal": {"num": "hex"},
